@@ -398,6 +398,7 @@ func schedule(c *kit.Ctx, id string, i int) {
 		}
 		signIdx, signRound, sender, signHash := idx, rd, m.Addr, b
 		kind := "valid"
+		status := ucon.VerifMsgSame
 		sw := r.Intn(14)
 		if lateEquiv {
 			sw = 13
@@ -416,9 +417,33 @@ func schedule(c *kit.Ctx, id string, i int) {
 		case 2:
 			kind = "stale-index"
 			signIdx = idx + 1
+			if r.Intn(2) == 0 {
+				status = ucon.VerifMsgFuture // what the message handler passes for it; otherwise "same" (its context can lag the voter's)
+			}
 		case 3:
 			kind = "stale-round"
 			signRound = new(big.Int).SetUint64(round + 1)
+			if r.Intn(2) == 0 {
+				status = ucon.VerifMsgFuture
+			}
+		case 6:
+			// a well-formed late vote of the PREVIOUS round index (the handler passes msgOldRoundIndex;
+			// old precommits may complete an existing header, they must never count for this index)
+			if idx >= 2 {
+				kind = "old-index"
+				signIdx = idx - 1
+				status = ucon.VerifMsgOldRoundIndex
+				if r.Intn(2) == 0 {
+					vt = ucon.Precommit
+				}
+			}
+		case 7:
+			kind = "old-round"
+			signRound = new(big.Int).SetUint64(round - 1)
+			status = ucon.VerifMsgOldRound
+			if r.Intn(2) == 0 {
+				vt = ucon.Precommit
+			}
 		case 4, 5:
 			// a member re-uses a signature of its own that was already verified (an earlier vote of
 			// this round index for ANOTHER block) on a vote for b
@@ -446,7 +471,7 @@ func schedule(c *kit.Ctx, id string, i int) {
 		if valid {
 			w.m.deliver(m.Addr, vt, b, weight)
 		}
-		w.voter.VerifProcessVote(sender, data, vt)
+		w.voter.VerifProcessVoteStatus(sender, data, vt, status)
 		recheck()
 	}
 	for _, p := range pend {
